@@ -94,7 +94,7 @@ DefaultsAreZero ==
 
 \* (2) applying a value's own fields (any non-empty subset of them) to itself is the identity
 AppliesOwn == Done /\ last.op = "with" /\ DOMAIN P # {} /\ \A k \in DOMAIN P : P[k] = OwnFields(last.ty, R)[k]
-IdentityLaw == AppliesOwn => last.out = Ok(R)
+IdentityLaw == AppliesOwn /\ "half" \notin DOMAIN last => last.out = Ok(R)
 
 \* (3) under constrain every supplied numeric field ends at the valid value nearest to what was supplied
 ClampNearest ==
